@@ -526,7 +526,7 @@ def run_case(seed, root, params=None):
     backend = rng.choice(params.get('backends', ['make', 'ninja']))
     cfg = {'clock_mode': rng.choice(['strict', 'coarse']), 'bufsize': 4096,
            'seed': seed, 'jobs': rng.choice([1, 2, 4, 8])}
-    fault_mode = bool(params.get('fault_mode')) and rng.random() < 0.4
+    fault_mode = bool(params.get('fault_mode')) and rng.random() < 0.5
     proj = G.GraphGen(rng, backend).generate()
     ops = []
 
@@ -547,8 +547,16 @@ def run_case(seed, root, params=None):
         inter = sorted({f for st in g.steps.values() for f in st['reads']
                         if f in g.producer})
         all_files = sorted(g.producer)
+        # inputs of custom (non-compiler) steps: multi-output steps, stamp
+        # files and always-outdated steps hang off these
+        custom_inputs = sorted({f for st in g.steps.values()
+                                if st['tool'] == 'simtool'
+                                for f in st['reads'] if f.startswith('src/')})
         for i in range(rng.randint(2, params.get('max_edits', 5))):
-            if rng.random() < 0.75 or not inter:
+            x = rng.random()
+            if custom_inputs and x < 0.25:
+                f = rng.choice(custom_inputs)
+            elif x < 0.8 or not inter:
                 f = rng.choice(sources)
             else:
                 f = rng.choice(inter)
@@ -556,8 +564,11 @@ def run_case(seed, root, params=None):
                 return
             goals = [goal_name(rng.choice(all_files))] \
                 if rng.random() < 0.5 else []
-            if fault_mode and rng.random() < 0.5:
-                op = ['fault-build-check', goals, f, rng.randint(1, 3)]
+            if fault_mode and rng.random() < 0.6:
+                # the first step executed after an edit is its direct
+                # consumer: bias the failure onto it
+                op = ['fault-build-check', goals, f,
+                      1 if rng.random() < 0.6 else rng.randint(2, 4)]
             else:
                 op = ['build-check', goals, f]
             if do(op) or do(['null', goals]):
